@@ -4,6 +4,7 @@ import ScionVerif.Model.AddrText
 
 `p <kind> <hex of the UTF-8 string>`  →  `ok <canonical value>` | `err` | `panic`
 `s <kind> <value …>`                  →  `<hex of the UTF-8 displayed form>`
+primitives: `wslist` (all white-space code points), `digits <radix>` (all `cp:value`), `consts`.
 kinds: isd asn ia svc host ip ip4 ip6 addr addrsvc addrv4 addrv6 ipaddr sock socksvc sockv4 sockv6 ipsock
        legacysock txt.   host values: `4:<u32>` `6:<u128>` `s:<u16>`.
 -/
@@ -110,11 +111,33 @@ def doShow : List String → Option Str
   | "txt" :: rest => (parseAddrArgs rest).map (showTxt C)
   | _ => none
 
+/-- all scalar values (no surrogates) satisfying `p`, as decimal code points -/
+def scanChars (f : Char → Option String) : String :=
+  let out := Nat.fold 0x110000 (fun n _ acc =>
+    if 0xD800 ≤ n ∧ n ≤ 0xDFFF then acc else
+    match f (Char.ofNat n) with
+    | some s => s :: acc
+    | none => acc) ([] : List String)
+  " ".intercalate out.reverse
+
+open ScionVerif.Generated.Addr in
+def constsLine : String :=
+  let tab := fun (t : List (Str × Nat)) => ",".intercalate (t.map (fun p => s!"{String.ofList p.1}={p.2}"))
+  s!"ISD_BITS={ISD_BITS} ASN_BITS={ASN_BITS} ASN_MAX={ASN_MAX} ASN_DISPLAY_DECIMAL_MAX={ASN_DISPLAY_DECIMAL_MAX} " ++
+  s!"ASN_PARSE_DECIMAL_MAX={ASN_PARSE_DECIMAL_MAX} IA_BITS={IA_BITS} SVC_BITS={SVC_BITS} SVC_MULTICAST_FLAG={SVC_MULTICAST_FLAG} " ++
+  s!"PORT_BITS={PORT_BITS} SHOW={tab SVC_SHOW_NAMES} PARSE={tab SVC_PARSE_NAMES} TXT_PREFIX={String.ofList TXT_PREFIX}"
+
 def step (st : Unit) : List String → Unit × String
   | ["p", kind, hx] =>
     match decodeStr hx with
     | some s => (st, (doParse kind s).getD "bad-op")
     | none => (st, "bad-op")
+  | ["wslist"] => (st, scanChars (fun c => if isWhitespace c then some (toString c.toNat) else none))
+  | ["digits", r] =>
+    match r.toNat? with
+    | some r => (st, scanChars (fun c => (digitVal r c).map (fun d => s!"{c.toNat}:{d}")))
+    | none => (st, "bad-op")
+  | ["consts"] => (st, constsLine)
   | "s" :: args =>
     match doShow args with
     | some s => (st, encodeStr s)
